@@ -491,7 +491,17 @@ def run_lemma(cfg_key, lid, env):
         if os.environ.get("VERIF_RAISE"):
             raise
         return False
-    return acceptable(lm.d, env, v, r, lm.pos.annotation)
+    if not acceptable(lm.d, env, v, r, lm.pos.annotation):
+        return False
+    # the same value handed to the handler once more (a retry, the same payload structured as two root types): the
+    # decision has to be the same - a handler that consumed parts of the caller's object fails here
+    try:
+        r2 = lm.handler(v, lm.pos.annotation)
+    except Inconclusive:
+        raise
+    except Exception:
+        return False
+    return acceptable(lm.d, env, v, r2, lm.pos.annotation)
 
 
 def run_lemma_extra(cfg_key, lid, env_with, env_without):
